@@ -177,9 +177,20 @@ func (s *v4Server) ResetLeases(leases []*dhcpsvc.Lease) (err error) {
 	return nil
 }
 
-// getLeasesRef returns the actual leases slice.  For internal use only.
-func (s *v4Server) getLeasesRef() []*dhcpsvc.Lease {
-	return s.leases
+// getLeasesRef returns clones of all leases, including the expired ones.  For
+// internal use only.  It is safe for concurrent use and must not be called
+// with s.leasesLock held, since the leases are stored after the lock is
+// released, see [v4Server.handleDecline].
+func (s *v4Server) getLeasesRef() (leases []*dhcpsvc.Lease) {
+	s.leasesLock.Lock()
+	defer s.leasesLock.Unlock()
+
+	leases = make([]*dhcpsvc.Lease, 0, len(s.leases))
+	for _, l := range s.leases {
+		leases = append(leases, l.Clone())
+	}
+
+	return leases
 }
 
 // isBlocklisted returns true if this lease holds a blocklisted IP.
